@@ -751,44 +751,61 @@ type c04Case struct {
 }
 
 // embedVars replaces some leaves of a literal by variables (nested channel); returns the new
-// literal, the variable definitions text and values.
-func embedVars(t *rapid.T, s *hx.Schema, tr *hx.TRef, w hx.Val, defs *[]string, vals *[]hx.KV, label string, n *int, types map[string]*hx.TRef) hx.Val {
+// literal and what it denotes now (a variable without value or default denotes nothing: an input
+// object member written with it is as good as left out, a list member or the whole argument is null),
+// collecting the variable definitions text and values.
+func embedVars(t *rapid.T, s *hx.Schema, tr *hx.TRef, w hx.Val, defs *[]string, vals *[]hx.KV, label string, n *int, types map[string]*hx.TRef) (lit, sem hx.Val) {
 	if w.IsNil() {
-		return w
+		return w, w
 	}
-	mk := func(tt *hx.TRef, v hx.Val) hx.Val {
+	absent := hx.Val{K: "absent"}
+	mk := func(tt *hx.TRef, v hx.Val) (hx.Val, hx.Val) {
 		*n++
 		name := fmt.Sprintf("v%d", *n)
 		types[name] = tt
-		if rapid.Bool().Draw(t, label+name+"dflt") {
+		switch rapid.IntRange(0, 4).Draw(t, label+name+"how") {
+		case 0, 1:
 			*defs = append(*defs, fmt.Sprintf("$%s: %s = %s", name, tt, hx.ValueSDL(v)))
-		} else {
+		case 2:
+			// declared nullable, no default, no value
+			*defs = append(*defs, fmt.Sprintf("$%s: %s", name, tt.Nullable()))
+			return hx.VarV(name), absent
+		default:
 			*defs = append(*defs, fmt.Sprintf("$%s: %s", name, tt))
 			*vals = append(*vals, hx.KV{Key: name, V: v})
 		}
-		return hx.VarV(name)
+		return hx.VarV(name), v
 	}
 	if rapid.IntRange(0, 3).Draw(t, label+"here") == 0 {
 		return mk(tr, w)
 	}
 	if tr.List != nil && w.K == "list" {
 		out := make([]hx.Val, len(w.L))
+		outSem := make([]hx.Val, len(w.L))
 		for i, e := range w.L {
-			out[i] = embedVars(t, s, tr.List, e, defs, vals, fmt.Sprintf("%s_%d", label, i), n, types)
+			out[i], outSem[i] = embedVars(t, s, tr.List, e, defs, vals, fmt.Sprintf("%s_%d", label, i), n, types)
+			if outSem[i].K == "absent" {
+				outSem[i] = hx.Nil()
+			}
 		}
-		return hx.List(out...)
+		return hx.List(out...), hx.List(outSem...)
 	}
 	if td := s.Type(tr.Name); td != nil && td.Kind == hx.KInput && w.K == "map" {
 		out := make([]hx.KV, len(w.M))
+		var outSem []hx.KV
 		for i, kv := range w.M {
 			out[i] = kv
+			sv := kv.V
 			if f := td.Input(kv.Key); f != nil {
-				out[i].V = embedVars(t, s, f.Type, kv.V, defs, vals, label+kv.Key, n, types)
+				out[i].V, sv = embedVars(t, s, f.Type, kv.V, defs, vals, label+kv.Key, n, types)
+			}
+			if sv.K != "absent" {
+				outSem = append(outSem, hx.KV{Key: kv.Key, V: sv})
 			}
 		}
-		return hx.Map(out...)
+		return hx.Map(out...), hx.Map(outSem...)
 	}
-	return w
+	return w, w
 }
 
 func genCaseC04(t *rapid.T) *c04Case {
@@ -923,7 +940,11 @@ func genCaseC04(t *rapid.T) *c04Case {
 		}
 	case "nested":
 		n := 0
-		lit := embedVars(t, s, c.ArgT, w, &defs, &c.Vars, "e", &n, varTypes)
+		lit, sem := embedVars(t, s, c.ArgT, w, &defs, &c.Vars, "e", &n, varTypes)
+		if sem.K == "absent" {
+			sem = hx.Nil()
+		}
+		c.W = sem
 		argText = hx.ValueSDL(lit)
 	}
 	if len(varTypes) > 0 && rapid.IntRange(0, 2).Draw(t, "reuse") == 0 {
